@@ -114,7 +114,7 @@ EXPORT errno_t _strcmp_s_chk(const char *dest, rsize_t dmax, const char *src,
             return RCNEGATE(ESUNTERM);
         }
     }
-    *resultp = *dest - *src;
+    *resultp = (unsigned char)*dest - (unsigned char)*src;
     return RCNEGATE(EOK);
 }
 #ifdef __KERNEL__
